@@ -298,9 +298,15 @@ def ref_for(draw, style, timestamps, m, name="ref"):
             vals.add(t + m / 4)
     for t in draw(st.lists(gen.time_of(style), max_size=2)):
         vals.add(t)
+    if any(0 < t <= m for t in timestamps) and draw(st.booleans()):
+        vals.add(0.0)  # a reference timestamp of exactly 0 within reach of a timestamp that is not 0
     vals = sorted(v for v in vals if v >= 0)
     if draw(st.booleans()) or len(vals) < 2:
-        return {"type": "point", "name": name, "entries": [[v, draw(st.sampled_from(["r", "r", ""]))] for v in vals], "minT": 0.0,
+        ents_p = [[v, draw(st.sampled_from(["r", "r", ""]))] for v in vals]
+        if len(ents_p) >= 2 and draw(st.integers(0, 3)) == 0:
+            k = draw(st.integers(1, len(ents_p) - 1))
+            ents_p.insert(k + 1, [ents_p[k][0], "r2"])  # two reference points at one instant: one reference timestamp
+        return {"type": "point", "name": name, "entries": ents_p, "minT": 0.0,
                 "maxT": max(vals + [1.0]), "style": style}
     # (a reference entry without a label is a reference entry: its timestamps count like any other's)
     ents = [[vals[i], vals[i + 1], draw(st.sampled_from(["r", "r", ""]))] for i in range(0, len(vals) - 1, 2)]
